@@ -10,9 +10,20 @@
   3. `ancestor_precedes`: in the normalized order every ancestor stands before its
      descendants.
   4. `list_total`: FindLayers never panics.
+  5. the invariant `WF` (Lemmas/ForestInv.lean): unique legal names, every parent exists,
+     no layer its own ancestor, `order` = the normalized order.  `add_preserves_WF`,
+     `remove_preserves_WF`, `rename_preserves_WF`, `rebase_preserves_WF`: a command that
+     returns normally — from ANY world, whatever faults, crash points or pretend switch
+     are set — returns a well-formed table, and the table differs from the old one exactly
+     as the command says.  `reachable_WF`: after any sequence of commands.
+  6. `findLayers_WF_partial`, `getLayers_WF_partial`, `run_WF_partial`: the table an
+     invocation reads from the disk is well-formed (hypothesis: the listing of the layers
+     directory has no name twice), and so is what the invocation returns.
 -/
 import Lc.Lemmas.RunM
 import Lc.Lemmas.Forest
+import Lc.Lemmas.ForestInv
+import Lc.Lemmas.ForestCmd
 
 namespace Lc.Props.C02
 open Lc Lc.Layers Lc.RunM Lc.Forest
@@ -404,5 +415,378 @@ example (w : World) := remove_rejects_parent exCfg exD b!"m" false w exA exB (by
 /-- a table that fails the check: `normalize_fuel`'s hypothesis is not vacuous the other way -/
 example : checkInheritance [{ exA with base := b!"m" }] = false := by decide
 example : normalizeOrder [{ exA with base := b!"m" }] = Res.panic := rfl
+
+/-! ### 5. the forest invariant -/
+
+open Lc.ForestInv Lc.ForestCmd
+
+/-! what `WF` says, in the words of the property -/
+
+/-- names are unique -/
+theorem wf_names_unique (d : Defs) (h : WF d) (x y : Layer) (hx : x ∈ d.layers) (hy : y ∈ d.layers)
+    (e : x.name = y.name) : x = y := nodup_name_inj h.nodup hx hy e
+
+/-- every layer's parent exists (and is what the code's lookup finds) -/
+theorem wf_parent_exists (d : Defs) (h : WF d) (l : Layer) (hl : l ∈ d.layers) (hb : l.base ≠ []) :
+    ∃ p, findLayer d l.base = some p ∧ p ∈ d.layers ∧ p.name = l.base := by
+  obtain ⟨p, hp, hn⟩ := h.parent l hl hb
+  cases hf : findLayer d l.base with
+  | none =>
+    exact absurd (List.mem_map.mpr ⟨p, hp, hn⟩) ((findLayer_none_iff d l.base).mp hf)
+  | some q => exact ⟨q, rfl, (findLayer_mem hf).1, (findLayer_mem hf).2⟩
+
+/-- no layer is its own ancestor -/
+theorem wf_no_self_ancestor (d : Defs) (h : WF d) (l : Layer) : ¬ Ancestor d.layers l l := by
+  intro ha
+  obtain ⟨hk, _⟩ := normalizeOrder_ok _ _ h.order
+  obtain ⟨_, _, ka, s, hs, h1, h2⟩ := ancestor_key_prefix d.layers hk l l ha
+  rw [h1] at h2
+  injection h2 with h2
+  exact hs (by simpa using h2)
+
+/-- list/status can order the layers: `order` holds every name exactly once, ancestors first -/
+theorem wf_order (d : Defs) (h : WF d) :
+    d.order.Perm (d.layers.map (·.name)) ∧ d.order.Nodup ∧
+      ∀ a c, Ancestor d.layers a c → Before d.order a.name c.name :=
+  ⟨order_perm _ _ h.order, order_nodup _ _ h.order h.nodup,
+    fun a c hac => ancestor_precedes _ _ h.order a c hac⟩
+
+/-- **add_preserves_WF**: a successful `add` returns a well-formed table: the old records
+    followed by one new record with the given name and base; the name was free. -/
+theorem add_preserves_WF (cfg : Config) (d d' : Defs) (n b f : Bytes) (w w' : World) (h : WF d)
+    (hr : (addLayer cfg d n b f).run.run w = (.ok d', w')) :
+    WF d' ∧ findLayer d n = none ∧
+      ∃ x : Layer, x.name = n ∧ x.base = b ∧ x.layerPath = layerPath cfg n ∧
+        d'.layers = d.layers ++ [x] := by
+  obtain ⟨h1, h2, cm, ce, o, ho, rfl⟩ := ret_elim _ _ (addLayer_ret cfg d n b f) w d' w' hr
+  obtain ⟨a1, a2, a3⟩ := (free_iff d n).mp h1
+  have hb := (optneed_iff d b).mp h2
+  refine ⟨wf_add d _ o h a1 a2 a3 ?_ ho, a3, _, rfl, rfl, rfl, rfl⟩
+  intro hbne
+  rcases hb with e | ⟨_, hs⟩
+  · exact absurd e hbne
+  · exact hs
+
+/-- **remove_preserves_WF**: a successful `remove` returns a well-formed table: the old
+    records without the one named `n`; no remaining record has base `n`. -/
+theorem remove_preserves_WF (cfg : Config) (d d' : Defs) (n : Bytes) (files : Bool) (w w' : World)
+    (h : WF d) (hr : (removeLayer cfg d n files).run.run w = (.ok d', w')) :
+    WF d' ∧ (findLayer d n).isSome = true ∧ d'.layers = d.layers.filter (·.name != n) ∧
+      findLayer d' n = none ∧ ∀ l ∈ d'.layers, l.base ≠ n := by
+  obtain ⟨h1, h2, o, ho, rfl⟩ := ret_elim _ _ (removeLayer_ret cfg d n files) w d' w' hr
+  obtain ⟨_, _, a3⟩ := (need_iff d n).mp h1
+  refine ⟨wf_remove d n o h h2 ho, a3, rfl, ?_, ?_⟩
+  · rw [findLayer_none_iff]
+    intro hm
+    obtain ⟨x, hx, e⟩ := List.mem_map.mp hm
+    have := (List.mem_filter.mp hx).2
+    simp [e] at this
+  · intro l hl e
+    unfold hasChild at h2
+    rw [List.any_eq_false] at h2
+    exact h2 l (List.mem_filter.mp hl).1 (by simp [e])
+
+/-- **rename_preserves_WF**: a successful `rename old new` — whatever order the children
+    were visited in — returns a well-formed table: the record of `old` is replaced by one
+    named `new` (same base, moved to the end), every record with base `old` has base `new`,
+    nothing else changed.  In the (name, base) view: the new table is the old one under
+    the renaming `old ↦ new` of names and bases. -/
+theorem rename_preserves_WF (cfg : Config) (d d' : Defs) (old new : Bytes) (co : List Bytes)
+    (w w' : World) (h : WF d) (hr : (renameLayer cfg d old new co).run.run w = (.ok d', w')) :
+    WF d' ∧ ∃ l, findLayer d old = some l ∧ findLayer d new = none ∧
+      d'.layers = renamed d.layers old new { l with name := new, layerPath := layerPath cfg new } ∧
+      d'.layers.length = d.layers.length ∧
+      ∀ a b, (a, b) ∈ d'.layers.map nb ↔
+        ∃ x ∈ d.layers, a = rn old new x.name ∧ b = rn old new x.base := by
+  obtain ⟨h1, h2, l, o, d1, hl, hd1, ho, rfl⟩ :=
+    ret_elim _ _ (renameLayer_ret cfg d old new co) w d' w' hr
+  obtain ⟨a1, a2, a3⟩ := (free_iff d new).mp h2
+  have hk : d1.layers = d.layers.map (rebaseKid old new) := by
+    rw [hd1]; exact kids_foldl_layers d h.nodup old new co
+  have hren : d1.layers.filter (·.name != old) ++ [{ l with name := new, layerPath := layerPath cfg new }]
+      = renamed d.layers old new { l with name := new, layerPath := layerPath cfg new } := by
+    rw [hk]; rfl
+  rw [hren] at ho
+  have hlm := findLayer_mem hl
+  have hoe : old ≠ [] := by have := (h.legal l hlm.1).1; rwa [hlm.2] at this
+  have hlb : l.base ≠ old := by
+    have := self_base_ne d.layers h.acyclic l hlm.1 (h.legal l hlm.1).1
+    rwa [hlm.2] at this
+  have hwf := wf_rename d old new l { l with name := new, layerPath := layerPath cfg new } o h hl a1 a2 a3 rfl rfl ho
+  refine ⟨?_, l, hl, a3, hren, ?_, ?_⟩
+  · exact wf_of_view hwf (by show List.map nb (_ ++ _) = _; rw [hren]) rfl
+  · show List.length (_ ++ _) = _
+    rw [hren]; exact length_renamed d.layers old new l _ h.nodup hl
+  · intro a b
+    show (a, b) ∈ List.map nb (_ ++ _) ↔ _
+    rw [hren]
+    exact mem_view_renamed d.layers old new l { l with name := new, layerPath := layerPath cfg new }
+      h.nodup hl hlb rfl rfl a b
+
+/-- **rebase_preserves_WF**: a successful `rebase n nb` returns a well-formed table in which
+    only the base of `n` changed, to `nb`. -/
+theorem rebase_preserves_WF (cfg : Config) (d d' : Defs) (n nb : Bytes) (w w' : World) (h : WF d)
+    (hr : (rebaseLayer cfg d n nb).run.run w = (.ok d', w')) :
+    WF d' ∧ (findLayer d n).isSome = true ∧
+      d'.layers = d.layers.map (fun x => if x.name = n then { x with base := nb } else x) := by
+  obtain ⟨_, _, l, o, hl, hc, ho, rfl⟩ := ret_elim _ _ (rebaseLayer_ret cfg d n nb) w d' w' hr
+  refine ⟨wf_setLayer d _ o h hc ho, by rw [hl]; rfl, ?_⟩
+  show (setLayer d { l with base := nb }).layers = _
+  unfold setLayer
+  apply List.map_congr_left
+  intro x hx
+  have hlm := findLayer_mem hl
+  by_cases e : x.name = n
+  · have : x = l := nodup_name_inj h.nodup hx hlm.1 (e.trans hlm.2.symm)
+    subst this
+    simp [e]
+  · have e' : ¬ (x.name == l.name) = true := by rw [hlm.2]; simpa using e
+    simp only [e', e, if_false, Bool.false_eq_true]
+
+/-! after any sequence of commands -/
+
+/-- the four structural commands -/
+inductive SCmd where
+  | add (name base configFile : Bytes)
+  | remove (name : Bytes) (files : Bool)
+  | rename (old new : Bytes) (childOrder : List Bytes)
+  | rebase (name newbase : Bytes)
+  deriving Repr
+
+def SCmd.apply (cfg : Config) (d : Defs) : SCmd → M Defs
+  | .add n b f => addLayer cfg d n b f
+  | .remove n f => removeLayer cfg d n f
+  | .rename o n co => renameLayer cfg d o n co
+  | .rebase n b => rebaseLayer cfg d n b
+
+/-- one command on (table, world): a command that fails leaves the table as it was (what it
+    did to the world before failing stays) -/
+def stepS (cfg : Config) (s : Defs × World) (c : SCmd) : Defs × World :=
+  match (c.apply cfg s.1).run.run s.2 with
+  | (.ok d', w') => (d', w')
+  | (.error _, w') => (s.1, w')
+
+/-- **step_preserves_WF**: one command, successful or not, in any world -/
+theorem step_preserves_WF (cfg : Config) (s : Defs × World) (c : SCmd) (h : WF s.1) :
+    WF (stepS cfg s c).1 := by
+  unfold stepS
+  split
+  · rename_i d' w' hr
+    cases c with
+    | add n b f => exact (add_preserves_WF cfg s.1 d' n b f s.2 w' h hr).1
+    | remove n f => exact (remove_preserves_WF cfg s.1 d' n f s.2 w' h hr).1
+    | rename o n co => exact (rename_preserves_WF cfg s.1 d' o n co s.2 w' h hr).1
+    | rebase n b => exact (rebase_preserves_WF cfg s.1 d' n b s.2 w' h hr).1
+  · exact h
+
+/-- every state passed while running the commands `cs` one after the other -/
+def statesS (cfg : Config) : Defs × World → List SCmd → List (Defs × World)
+  | s, [] => [s]
+  | s, c :: cs => s :: statesS cfg (stepS cfg s c) cs
+
+/-- **reachable_WF**: start from a well-formed table in any world (any file system, any
+    fault / crash / pretend setting); run any list of add / remove / rename / rebase
+    commands, each successful or not: every intermediate and the final table is a
+    well-formed forest.  No bound on the length. -/
+theorem reachable_WF (cfg : Config) (cs : List SCmd) (d0 : Defs) (w0 : World) (h : WF d0) :
+    (∀ s ∈ statesS cfg (d0, w0) cs, WF s.1) ∧ WF (cs.foldl (stepS cfg) (d0, w0)).1 := by
+  induction cs generalizing d0 w0 with
+  | nil => exact ⟨by intro s hs; simp [statesS] at hs; subst hs; exact h, h⟩
+  | cons c cs ih =>
+    have hstep := step_preserves_WF cfg (d0, w0) c h
+    obtain ⟨i1, i2⟩ := ih (stepS cfg (d0, w0) c).1 (stepS cfg (d0, w0) c).2 hstep
+    refine ⟨?_, i2⟩
+    intro s hs
+    simp only [statesS, List.mem_cons] at hs
+    rcases hs with rfl | hs
+    · exact h
+    · exact i1 s hs
+
+/-- tables reachable when the environment may do anything between the commands: each
+    command runs in an arbitrary world -/
+inductive Reach (cfg : Config) (d0 : Defs) : Defs → Prop where
+  | start : Reach cfg d0 d0
+  | step (d : Defs) (c : SCmd) (w : World) : Reach cfg d0 d → Reach cfg d0 (stepS cfg (d, w) c).1
+
+/-- **reach_WF**: … and even then -/
+theorem reach_WF (cfg : Config) (d0 d : Defs) (h : WF d0) (hr : Reach cfg d0 d) : WF d := by
+  induction hr with
+  | start => exact h
+  | step d c w _ ih => exact step_preserves_WF cfg (d, w) c ih
+
+/-! ### 6. what an invocation reads from the disk -/
+
+/-- **findLayers_WF_partial**: whatever is on the disk, the table a successful FindLayers
+    returns is well-formed.  Names are legal because `readLayerFiles` skips every directory
+    entry whose name is not; non-empty because `path.Base` never returns ""; parents exist
+    and there is no cycle because `checkInheritance` is tested; the order is computed.
+    PARTIAL in one point: uniqueness of names is inherited from the directory listing, so it
+    is a hypothesis that `Fs.children` (os.ReadDir) lists no name twice.  (The model's tree is
+    an association list without a built-in uniqueness invariant; for the real ReadDir this
+    is a fact about the kernel.) -/
+theorem findLayers_WF_partial (cfg : Config) (w w' : World) (d : Defs)
+    (hls : (Fs.children w.fs cfg.layerdirs).Nodup)
+    (hr : (findLayers cfg).run.run w = (.ok d, w')) : WF d := by
+  obtain ⟨_, hL, hc, ho⟩ := findLayers_ok cfg w w' d hr
+  refine ⟨?_, ?_, parent_of_check _ hc, hc, ho⟩
+  · rw [hL]; exact List.Nodup.sublist (readLayerFiles_names cfg w.fs _) hls
+  · intro l hl
+    rw [hL] at hl
+    obtain ⟨hm, hleg⟩ := readLayerFiles_legal cfg w.fs _ l hl
+    exact ⟨children_ne_nil _ _ _ hm, hleg⟩
+
+/-- … and stays so through the probe: what `getLayers` hands to every command -/
+theorem getLayers_WF_partial (cfg : Config) (inuse : List (Bytes × List User)) (w w' : World) (d : Defs)
+    (hls : (Fs.children w.fs cfg.layerdirs).Nodup)
+    (hr : (getLayers cfg inuse).run.run w = (.ok d, w')) : WF d := by
+  unfold getLayers at hr
+  obtain ⟨d1, w1, h1, h2⟩ := bind_ok_inv _ _ _ _ _ hr
+  have hd1 := findLayers_WF_partial cfg w w1 d1 hls h1
+  exact ret_elim _ _ (probeAll_ret cfg inuse d1 hd1) w1 d w' h2
+
+/-- the commands covered by `run_WF_partial` -/
+def structural : Cmd → Bool
+  | .init | .add .. | .remove .. | .rename .. | .rebase .. | .probe => true
+  | _ => false
+
+/-- **run_WF_partial**: one whole invocation (read the disk, probe, run the command) of
+    init / add / remove / rename / rebase / list that ends normally returns a well-formed
+    table — in any world.  Same hypothesis as `findLayers_WF_partial`. -/
+theorem run_WF_partial (cfg : Config) (inuse : List (Bytes × List User)) (c : Cmd) (w : World)
+    (d : Defs) (hc : structural c = true) (hls : (Fs.children w.fs cfg.layerdirs).Nodup)
+    (hr1 : (run cfg inuse c w).1 = .ok d) : WF d := by
+  generalize hw' : (run cfg inuse c w).2 = w'
+  have hr : run cfg inuse c w = (.ok d, w') := by rw [← hr1, ← hw']
+  clear hr1 hw'
+  unfold run at hr
+  cases c with
+  | init =>
+    have hr' : (initBase cfg >>= fun _ => (pure {} : M Defs)).run.run w = (.ok d, w') := hr
+    obtain ⟨_, w1, _, h2⟩ := bind_ok_inv _ _ _ _ _ hr'
+    rw [run_pure] at h2
+    injection h2 with h2 _; injection h2 with h2; subst h2
+    exact wf_empty
+  | add n b f =>
+    have hr' : (getLayers cfg inuse >>= fun d => addLayer cfg d n b f).run.run w = (.ok d, w') := hr
+    obtain ⟨d1, w1, h1, h2⟩ := bind_ok_inv _ _ _ _ _ hr'
+    exact (add_preserves_WF cfg d1 d n b f w1 w' (getLayers_WF_partial cfg inuse w w1 d1 hls h1) h2).1
+  | remove n f =>
+    have hr' : (getLayers cfg inuse >>= fun d => removeLayer cfg d n f).run.run w = (.ok d, w') := hr
+    obtain ⟨d1, w1, h1, h2⟩ := bind_ok_inv _ _ _ _ _ hr'
+    exact (remove_preserves_WF cfg d1 d n f w1 w' (getLayers_WF_partial cfg inuse w w1 d1 hls h1) h2).1
+  | rename o n co =>
+    have hr' : (getLayers cfg inuse >>= fun d => renameLayer cfg d o n co).run.run w = (.ok d, w') := hr
+    obtain ⟨d1, w1, h1, h2⟩ := bind_ok_inv _ _ _ _ _ hr'
+    exact (rename_preserves_WF cfg d1 d o n co w1 w' (getLayers_WF_partial cfg inuse w w1 d1 hls h1) h2).1
+  | rebase n b =>
+    have hr' : (getLayers cfg inuse >>= fun d => rebaseLayer cfg d n b).run.run w = (.ok d, w') := hr
+    obtain ⟨d1, w1, h1, h2⟩ := bind_ok_inv _ _ _ _ _ hr'
+    exact (rebase_preserves_WF cfg d1 d n b w1 w' (getLayers_WF_partial cfg inuse w w1 d1 hls h1) h2).1
+  | probe =>
+    have hr' : (getLayers cfg inuse >>= fun d => (pure d : M Defs)).run.run w = (.ok d, w') := hr
+    obtain ⟨d1, w1, h1, h2⟩ := bind_ok_inv _ _ _ _ _ hr'
+    rw [run_pure] at h2
+    injection h2 with h2 _; injection h2 with h2; subst h2
+    exact getLayers_WF_partial cfg inuse w w1 d1 hls h1
+  | mkdirs _ => cases hc
+  | mount _ => cases hc
+  | umount _ _ => cases hc
+  | shake => cases hc
+  | chroot _ => cases hc
+
+/-! ### non-vacuity of 5 and 6: the forest  0,  m ← b ← a  of the examples above -/
+
+/-- the example table with its order -/
+def exW : Defs := { layers := exLayers, order := [b!"0", b!"m", b!"b", b!"a"] }
+
+/-- pretend mode: every command runs through without a file-system precondition -/
+def exPretend : World := { pretend := true }
+
+set_option maxRecDepth 100000 in
+theorem exW_wf : WF exW := by
+  refine ⟨by decide, ?_, parent_of_check _ (by decide), by decide, rfl⟩
+  intro l hl
+  simp only [exW, exLayers, List.mem_cons, List.not_mem_nil, or_false] at hl
+  rcases hl with rfl | rfl | rfl | rfl <;> exact ⟨by decide, by decide⟩
+
+/-- the hypotheses of the `*_preserves_WF` theorems are satisfiable, the conclusions say
+    something: concrete successful runs and the tables they return -/
+example : ∃ d' w', (addLayer exCfg exW b!"n" b!"b" []).run.run exPretend = (.ok d', w') ∧
+    WF d' ∧ d'.order = [b!"0", b!"m", b!"b", b!"a", b!"n"] :=
+  by
+  refine ⟨_, _, rfl, ?_, rfl⟩
+  exact (add_preserves_WF exCfg exW _ b!"n" b!"b" [] exPretend _ exW_wf rfl).1
+example : ∃ d' w', (removeLayer exCfg exW b!"a" false).run.run exPretend = (.ok d', w') ∧
+    WF d' ∧ d'.order = [b!"0", b!"m", b!"b"] :=
+  by
+  refine ⟨_, _, rfl, ?_, rfl⟩
+  exact (remove_preserves_WF exCfg exW _ b!"a" false exPretend _ exW_wf rfl).1
+example : ∃ d' w', (renameLayer exCfg exW b!"b" b!"x" []).run.run exPretend = (.ok d', w') ∧
+    WF d' ∧ d'.order = [b!"0", b!"m", b!"x", b!"a"] ∧
+    d'.layers.map nb = [(b!"a", b!"x"), (b!"0", []), (b!"m", []), (b!"x", b!"m")] :=
+  by
+  refine ⟨_, _, rfl, ?_, rfl, rfl⟩
+  exact (rename_preserves_WF exCfg exW _ b!"b" b!"x" [] exPretend _ exW_wf rfl).1
+example : ∃ d' w', (rebaseLayer exCfg exW b!"a" b!"0").run.run exPretend = (.ok d', w') ∧
+    WF d' ∧ d'.order = [b!"0", b!"a", b!"m", b!"b"] :=
+  by
+  refine ⟨_, _, rfl, ?_, rfl⟩
+  exact (rebase_preserves_WF exCfg exW _ b!"a" b!"0" exPretend _ exW_wf rfl).1
+
+/-- a table that is not well-formed (a dangling base): `WF` is not trivially true -/
+example : ¬ WF { layers := [exB], order := [b!"b"] } := by
+  intro h
+  have := h.acyclic
+  revert this
+  decide
+
+/-- a sequence with successes and refusals (remove of a parent, rebase onto a descendant):
+    every table on the way is well-formed, and the final order is the expected one -/
+def exSeq : List SCmd :=
+  [.add b!"n" b!"b" [], .remove b!"b" false, .rebase b!"m" b!"a", .rename b!"b" b!"x" [b!"n", b!"a"],
+   .rebase b!"n" b!"0", .remove b!"a" false]
+example : ((exSeq.foldl (stepS exCfg) (exW, exPretend)).1).order = [b!"0", b!"n", b!"m", b!"x"] := rfl
+example := (reachable_WF exCfg exSeq exW exPretend exW_wf).2
+/-- the same with a fault injected at the first mutation (not pretending, empty disk): the
+    add fails, the table stays -/
+example : (stepS exCfg (exW, { faultAt := some 1 }) (.add b!"n" b!"b" [])).1.order = exW.order := rfl
+
+/-- a disk: layers `m`, `b` (base m), a directory with an illegal name and one without a
+    layerconfig; FindLayers returns the two layers, parents first -/
+def exDisk : World :=
+  { fs := [(b!"/lc", .dir), (b!"/lc/layers", .dir),
+           (b!"/lc/layers/b", .dir), (b!"/lc/layers/b/layerconfig", .file b!"base m\n"),
+           (b!"/lc/layers/m", .dir), (b!"/lc/layers/m/layerconfig", .file []),
+           (b!"/lc/layers/x.y", .dir), (b!"/lc/layers/x.y/layerconfig", .file []),
+           (b!"/lc/layers/empty", .dir)] }
+example : (Fs.children exDisk.fs exCfg.layerdirs).Nodup := by decide
+set_option maxRecDepth 100000 in
+example : ∃ d, (findLayers exCfg).run.run exDisk = (.ok d, exDisk) ∧ WF d ∧ d.order = [b!"m", b!"b"] := by
+  refine ⟨_, rfl, ?_, rfl⟩
+  exact findLayers_WF_partial exCfg exDisk exDisk _ (by decide) rfl
+
+/-- one whole invocation on that disk, not pretending: `rebase b ""` ends normally, returns a
+    well-formed table of two roots and has rewritten b's layerconfig -/
+example : ∀ d, (run exCfg [] (.rebase b!"b" []) exDisk).1 = .ok d → WF d :=
+  fun d h => run_WF_partial exCfg [] (.rebase b!"b" []) exDisk d rfl (by decide) h
+example : (run exCfg [] (.rebase b!"b" []) exDisk).1.toOption.map (·.order) = some [b!"b", b!"m"] := by
+  decide +kernel
+example : Fs.readFile (run exCfg [] (.rebase b!"b" []) exDisk).2.fs b!"/lc/layers/b/layerconfig" = some [] := by
+  decide +kernel
+set_option maxRecDepth 100000 in
+example : ∃ d w', (getLayers exCfg []).run.run { exDisk with pretend := true } = (.ok d, w') ∧ WF d
+    ∧ d.order = [b!"m", b!"b"] := by
+  refine ⟨_, _, rfl, ?_, rfl⟩
+  exact getLayers_WF_partial exCfg [] { exDisk with pretend := true } _ _ (by decide) rfl
+/-- `reach_WF` with a different world at every step -/
+example : WF (stepS exCfg ((stepS exCfg (exW, exPretend) (.add b!"n" b!"b" [])).1, { crashAt := some 2 })
+    (.remove b!"a" true)).1 :=
+  reach_WF exCfg exW _ exW_wf (Reach.step _ _ _ (Reach.step _ _ _ Reach.start))
+/-- `wf_no_self_ancestor` / `wf_order` are about a table with real ancestors -/
+example : ¬ Ancestor exW.layers exA exA := wf_no_self_ancestor exW exW_wf exA
+example : Before exW.order b!"m" b!"a" :=
+  (wf_order exW exW_wf).2.2 exA exC
+    (Ancestor.trans exA exB exC (Ancestor.parent exB exA (by simp [exW, exLayers]) (by decide) (by decide))
+      (by simp [exW, exLayers]) (by decide) (by decide))
 
 end Lc.Props.C02
